@@ -13,6 +13,7 @@ OVERLAY = {
 C09_CLAUSES = {
     "metadata-call-panic", "watcher-panic", "reobs-panic", "malformed-event-ends-watcher", "wellformed-event-dropped",
     "page-loop-spin", "page-gap-or-overlap", "final-message-not-forwarded", "height-not-resent",
+    "fetch-stalled", "poller-not-enabled",
 }
 
 
